@@ -833,7 +833,7 @@ def part_b(rep: vlib.Reporter, tier: str, rng: random.Random) -> bool:
 
 def run(rep: vlib.Reporter, tier: str, seed: int) -> None:
     install()
-    pr = vlib.build_props("C07", extra_targets=["Model/Args.vo", "Model/OrchCheck.vo"])
+    pr = vlib.build_props("C07", extra_targets=["Model/OrchCheck.vo"])
     rep.proof(pr)
     rep.coverage["trusted_base"] += [
         "hand-written Model/Session.v (mlodaAPI.run/stream_run/_batch_run/_setup_engine_runner/_enter_runner_context, "
